@@ -570,6 +570,15 @@ def run_verus(prop):
            "wall_s": round(time.time() - t0, 1), "smt_time_ms": (j.get("times-ms", {}) or {}).get("smt", {}),
            "lemmas": sorted(k.split("::")[-1] for k in (j.get("func-details") or {}).keys() if "lemma_" in k or "fact_" in k),
            "functions": sorted(k.split("::")[-1] for k in (j.get("func-details") or {}).keys() if k.startswith(crate))}
+    # mechanical assumption scan of the text Verus actually checked: none of these may appear
+    try:
+        gtxt = open(gen).read()
+    except OSError:
+        gtxt = ""
+    res["assumption_scan"] = {k: len(re.findall(r"\b%s\b" % k, gtxt)) for k in
+                              ("assume", "admit", "external_body", "assume_specification", "external")}
+    if any(res["assumption_scan"].values()):
+        res["assumption_scan_note"] = "the generated text contains unproved assumptions - listed, not proved"
     if vr.get("encountered-vir-error") or (not vr.get("success") and not vr.get("errors")):
         res.update(status="undecided", why="verus rejected the extracted text: " + p.stderr[-800:])
     elif vr.get("errors", 0) > 0:
